@@ -379,9 +379,19 @@ def for_in(
     """
 
     def factory(_: abc.SchedulerBase) -> Observable[_T2]:
-        # map() returns a one-shot iterator: build it per subscription
-        mapped: Iterable[Observable[_T2]] = map(mapper, values)
-        return concat_with_iterable(mapped)
+        # A one-shot iterator, built per subscription. An exception raised
+        # by the mapper is reported through the sequence: a StopIteration
+        # escaping from next() would read as the end of the values.
+        def mapped() -> Iterable[Observable[_T2]]:
+            for value in values:
+                try:
+                    source = mapper(value)
+                except Exception as ex:  # pylint: disable=broad-except
+                    yield throw(ex)
+                    return
+                yield source
+
+        return concat_with_iterable(mapped())
 
     return defer(factory)
 
